@@ -104,6 +104,32 @@ def handleFc (id mode kindFull sent : String) (obs : List String) : String :=
   | some _, some sentB, [recvH, rr] =>
     match unhex recvH, (kv "rr" [rr]).map (·.splitOn ":") with
     | some recv, some [n, wf, sts] =>
+      if kind.startsWith "h2-" then
+        -- an HTTP/2 connection (the client sent the preface): whatever the server sent is a
+        -- sequence of complete frames beginning with its SETTINGS frame; a malformed
+        -- continuation is never answered with a response (a HEADERS frame), a well-formed
+        -- request is answered 200 (`:status 200` is the indexed field 0x88)
+        let lean := validH2 recv
+        let showF (fs : List (Nat × Nat)) : String :=
+          if fs.isEmpty then "-" else ",".intercalate (fs.map fun f => s!"{f.1}.{f.2}")
+        let oracleAgree := match lean with
+          | some fs => wf == "1" && n == toString fs.length && sts == showF fs
+          | none => wf == "0"
+        let sentOk := h2Preface.isPrefixOf sentB
+        let spec := match lean with
+          | none => false
+          | some fs =>
+            let answered := fs.any fun f => f.1 == 1
+            if kind == "h2-valid-get" && !kindFull.startsWith "tls-" then fs.contains (1, 136)
+            else if kind == "h2-valid-get" then true
+            else !answered
+        let cls := (if kindFull.startsWith "tls-" then "tls-" else "") ++ kind ++ "/" ++
+          (match lean with
+           | none => "invalid-frames"
+           | some [] => "silent"
+           | some fs => if fs.any (fun f => f.1 == 7) then "goaway" else if fs.any (fun f => f.1 == 1) then "response" else "frames")
+        out id (oracleAgree && sentOk) (b2s spec) cls "-" s!"h2 lean={(lean.map showF).getD "invalid"}"
+      else
       match n.toNat?, parseStatuses sts with
       | some rn, some rsts =>
         let lean := validResponses (recv.length + 1) recv []
